@@ -10,7 +10,7 @@ BOUNDS = {
              "variant 0..2 spikes each, plain variant n1+n2 <= 3; py and pyx; whole recording and (ISI, sync) a symbolic "
              "sub-interval at n1+n2 <= 3",
     "thorough": "ISI/sync/order: 3+3; SPIKE equalities n1+n2 <= 4 (3+1, 2+2 with symbolic MRTS); SPIKE upper bound: RI "
-                "variant n1+n2 <= 4, plain variant <= 4 (<= 3 with symbolic MRTS)",
+                "variant n1+n2 <= 4, plain variant <= 3 (<= 2 with symbolic MRTS; larger sizes were measured undecided)",
 }
 OUTSIDE = "larger trains; the SPIKE bound S <= 1 beyond the stated sizes (non-linear real arithmetic limit of the solver)"
 ASSUMPTIONS = ["fork mode for SPIKE (pure polynomial paths)", "identity uses an equal copy (a.copy()) and the same object"]
@@ -44,7 +44,8 @@ def configs(tier):
                             continue
                         bound = True
                         # S <= 1 is a genuine non-linear inequality; sizes measured as decided by nlsat:
-                        if ri == 0 and n1 + n2 > ((3 if mk == "omit" else 2) if q else (4 if mk == "omit" else 3)):
+                        # (measured in the thorough trial: plain variant undecided at 2+2 / with symbolic MRTS at 3)
+                        if ri == 0 and n1 + n2 > (3 if mk == "omit" else 2):
                             bound = False       # plain variant not attempted at this size
                         if ri == 1 and n1 + n2 > (3 if mk == "sym" and q else 4):
                             bound = False
